@@ -75,6 +75,8 @@ func C09(x *Ctx, r *core.Result) {
 	b := r.Rule("R09b", "HandleArrayValues / HandleObjectValues return the inner function's error by identity in both buffer branches")
 	x.wrapperPassThrough(r, b, "HandleArrayValues", "HandleObjectValues")
 	r.CheckFloor(b, 2)
+	ad := r.Rule("R09x", "the function adapters return the wrapped function's error unchanged (R07x)")
+	x.adapterRule(r, ad)
 	c := r.Rule("R09c", "no recover and no error-wrapping call takes the handler's error anywhere in the two machine functions or their wrappers")
 	for _, n := range []string{"handleArrayValues", "handleObjectValues", "HandleArrayValues", "HandleObjectValues"} {
 		fn := x.Func(n)
